@@ -793,11 +793,14 @@ class MappingParser:
                     self.rml_df = pd.concat([self.rml_df, rml_rule.to_frame().T], ignore_index=True)
 
         # replace the old references with to triples maps with the new ids of the tiples maps
+        # (only in referencing object maps and quoted triples maps: any other value that equals the identifier of a
+        # triples map, e.g. a constant IRI, is data and must stay as it is)
         # this generates duplicates with the newly added rules, remove the duplicates
-        self.rml_df['subject_map_value'] = self.rml_df['subject_map_value'].map(tm_to_id_dict).fillna(
-            self.rml_df['subject_map_value'])
-        self.rml_df['object_map_value'] = self.rml_df['object_map_value'].map(tm_to_id_dict).fillna(
-            self.rml_df['object_map_value'])
+        for position in ['subject', 'object']:
+            references_tm = self.rml_df[f'{position}_map_type'].isin([RML_PARENT_TRIPLES_MAP, RML_QUOTED_TRIPLES_MAP])
+            self.rml_df.loc[references_tm, f'{position}_map_value'] = self.rml_df.loc[
+                references_tm, f'{position}_map_value'].map(tm_to_id_dict).fillna(
+                self.rml_df.loc[references_tm, f'{position}_map_value'])
         self.rml_df = self.rml_df.drop_duplicates()
 
         # replace the old triples map ids with the new ids
